@@ -208,6 +208,8 @@ def spec_value(eng, alg, sdef, i, j, n, ser, have_offdiag, two_block):
             return E(e[1], diag_ctx) - E(e[2], diag_ctx)
         if k == "div":
             return E(e[1], diag_ctx).scale(Fraction(1, e[2]))
+        if k == "scale":
+            return E(e[1], diag_ctx).scale(Fraction(e[2]))
         if k == "call":
             return F(e[1], E(e[2], diag_ctx))
         if k == "callseries":
